@@ -211,8 +211,8 @@ retry_fetch_lv:
         // case 1. lv_ptr != nullptr, and link to next-layer
         // visited this node
 
-        root = lv_ptr->get_next_layer();
-        if (root == nullptr) {
+        base_node* child = lv_ptr->get_next_layer();
+        if (child == nullptr) {
             if (early_abort) { return status::WARN_CONCURRENT_OPERATIONS; }
             goto retry_fetch_lv; // NOLINT
         }
@@ -229,8 +229,8 @@ retry_fetch_lv:
             if (early_abort) { return status::WARN_CONCURRENT_OPERATIONS; }
             goto retry_fetch_lv; // NOLINT
         }
-        // root was fetched correctly.
-        // root = lv; advance key; goto retry_find_border;
+        // child was fetched correctly.
+        // save this layer (with the root of this layer, not of the next one); root = child; advance key;
         traverse_key_view.remove_prefix(sizeof(key_slice_type));
         ctx->stack(key_tup, root, target_border, cmp_to_end,
                    {v_at_fb, permutation(target_border->get_permutation().get_body()), 0});
@@ -239,6 +239,7 @@ retry_fetch_lv:
                 cmp_to_end = -1;
             }
         }
+        root = child;
         goto next_layer; // NOLINT
     }
 
